@@ -22,6 +22,8 @@ pub struct RunReport {
     pub shape_digests: Vec<(u64, bool)>,
     pub discarded: BTreeMap<&'static str, u64>,
     pub log_digest: u64,
+    /// coverage features (see driver::EvalOut::features) of every evaluation of the scenario
+    pub features: BTreeSet<u64>,
 }
 
 fn v(prop: &'static str, clause: &str, msg: String) -> Violation {
@@ -89,6 +91,7 @@ fn account(rep: &mut RunReport, out: &EvalOut, plan: &EvalPlan) {
         Policy::Pct => "policy_pct",
     }).or_insert(0) += 1;
     rep.interleaving_digests.push(out.decisions_digest);
+    rep.features.extend(out.features.iter().cloned());
     // shape digest: graph shape, history shape, disposition vector
     let mut h = 0u64;
     for (i, j) in out.gv.jobs.iter().enumerate() {
